@@ -2,7 +2,7 @@
    while in use.  This file only states the theorems and closes them with the
    lemmas of C15_proofs.v / Dns_proofs.v; see DESIGN.md section 5 (C15). *)
 From TV.Lib Require Import Base.
-From TV.Ports Require Import Model Dns C15_proofs Dns_proofs.
+From TV.Ports Require Import Gen Model Dns C15_proofs Dns_proofs.
 Open Scope N_scope.
 
 (* ---- Host::assign_ephemeral_port -------------------------------------- *)
@@ -168,13 +168,22 @@ Qed.
    predicate accepts, in registration order, and registers nothing. *)
 Section Many.
   Variable P : N -> bool.
-  Theorem dns_lookup_many_filter : forall v es,
-    let d := dstate (dinit v) es in
-    lookup_many P d = (map snd (filter (fun na => P (fst na)) (names d)), d).
-  Proof.
-    intros v es d. destruct (dstate_inv es (dinit v) (dinv_init v)) as [I _]. apply lookup_many_spec, I.
-  Qed.
+Theorem dns_lookup_many_filter : forall v es,
+  let d := dstate (dinit v) es in
+  lookup_many P d = (map snd (filter (fun na => P (fst na)) (names d)), d).
+Proof.
+  intros v es d. destruct (dstate_inv es (dinit v) (dinv_init v)) as [I _]. apply lookup_many_spec, I.
+Qed.
 End Many.
+
+(* ---- constants re-read from the source on every run (Gen.v) -------------- *)
+
+Example c15_consts :
+  v4_prefix = v4_octet_a * 16777216 + v4_octet_b * 65536 /\
+  v6_prefix = v6_group_0 * (two16 * two16 * two16 * two16 * two16 * two16 * two16) /\
+  next (dinit V4) = v4_first_host /\ next (dinit V6) = v6_first_host /\
+  default_ephemeral_lo <= default_ephemeral_hi /\ default_ephemeral_hi < two16.
+Proof. vm_compute. repeat split; discriminate. Qed.
 
 (* ---- non-vacuity ------------------------------------------------------- *)
 
@@ -188,8 +197,8 @@ Example c15_nonvacuous :
   snd (run (init 50000 50002) h_hist) =
     [RPort 50000; RPort 50001; RPort 50002; RExhausted; RUnit; RPort 50000;
      RPort 50000; RPort 50002; RPort 50001; RInUse] /\
-  drun_enc false [DLookup (Name 7); DLookup (Name 9); DLookup (Name 7); DReverse 3232235522;
-                  DMany [9; 7]; DLookup (Literal 5)] =
+  drun (dinit V4) [DLookup (Name 7); DLookup (Name 9); DLookup (Name 7); DReverse 3232235522;
+                   DMany [9; 7]; DLookup (Literal 5)] =
     [[3232235521]; [3232235522]; [3232235521]; [10]; [3232235521; 3232235522]; [5]] /\
   addr_of V4 1 = addr_of V4 65537 /\ addr_of V4 1 <> addr_of V4 65536.
 Proof. vm_compute. repeat split; discriminate. Qed.
@@ -209,4 +218,5 @@ Print Assumptions dns_injective.
 Print Assumptions dns_guard_tight.
 Print Assumptions dns_reverse.
 Print Assumptions dns_lookup_many_filter.
+Print Assumptions c15_consts.
 Print Assumptions c15_nonvacuous.
